@@ -30,7 +30,21 @@ func verifC33Exec(op string) string {
 		verifC33R.Initialize()
 		verifC33Tags = map[*subgroup.SubGroup]int{}
 		verifC33N = 0
+		verifC33Kept = nil
 		return "ok"
+	case "recheck":
+		// the lists handed out by earlier Push calls belong to the caller (it walks them after the lock is released,
+		// while other streams of the track keep pushing): they must still read as they did when they were returned
+		bad := 0
+		for _, k := range verifC33Kept {
+			if verifC33Render(k.out) != k.was {
+				bad++
+			}
+		}
+		if bad != 0 {
+			return fmt.Sprintf("changed %d", bad)
+		}
+		return "same"
 	case "push":
 		var id uint64
 		fmt.Sscan(f[1], &id)
@@ -51,22 +65,37 @@ func verifC33Exec(op string) string {
 		if err != nil {
 			return "err"
 		}
-		var sb strings.Builder
-		sb.WriteString("[")
-		for i, o := range out {
-			if i > 0 {
-				sb.WriteString(" ")
-			}
-			tag, ok := verifC33Tags[o]
-			if !ok {
-				tag = -1
-			}
-			fmt.Fprintf(&sb, "%d:%d", o.Header.GroupID, tag)
+		lst := verifC33Render(out)
+		if len(out) != 0 {
+			verifC33Kept = append(verifC33Kept, verifC33KeptList{out: out, was: lst}) // the slice itself, not a copy
 		}
-		fmt.Fprintf(&sb, "] held=%d bytes=%d", len(verifC33R.pending), verifC33R.pendingBytes)
-		return sb.String()
+		return fmt.Sprintf("%s held=%d bytes=%d", lst, len(verifC33R.pending), verifC33R.pendingBytes)
 	}
 	return "bad-op"
+}
+
+type verifC33KeptList struct {
+	out []*subgroup.SubGroup
+	was string
+}
+
+var verifC33Kept []verifC33KeptList
+
+func verifC33Render(out []*subgroup.SubGroup) string {
+	var sb strings.Builder
+	sb.WriteString("[")
+	for i, o := range out {
+		if i > 0 {
+			sb.WriteString(" ")
+		}
+		tag, ok := verifC33Tags[o]
+		if !ok {
+			tag = -1
+		}
+		fmt.Fprintf(&sb, "%d:%d", o.Header.GroupID, tag)
+	}
+	sb.WriteString("]")
+	return sb.String()
 }
 
 func verifC33Gen(r *verifutil.Rand, i int, thorough bool) []string {
@@ -112,8 +141,11 @@ func verifC33Gen(r *verifutil.Rand, i int, thorough bool) []string {
 			size = r.Intn(64)
 		}
 		ops = append(ops, fmt.Sprintf("push %d %d", id, size))
+		if j%7 == 6 {
+			ops = append(ops, "recheck")
+		}
 	}
-	return ops
+	return append(ops, "recheck")
 }
 
 func TestVerifC33(t *testing.T) {
